@@ -1,23 +1,29 @@
 """C03 -- function space reproduces polynomials and integrates them exactly (structural clauses).
 
-  a  dispatch tables: compute_shapes has a branch for every element-type constant; the function-space
-     constructor maps each advertised mode2D to a volume function and an isAxisymmetric flag that agree;
-  b  axisymmetric weight: the axisymmetric volumes are 2*pi * (shapes @ X_nodes[:, r]) * (Cartesian volumes of the same
-     element), r = 0, the same radial column as Mechanics.axisymmetric_gradient and TensorMath.gradient_2D_to_axisymmetric;
-  c  affine map: gradients and volumes use the vertex nodes of the same parent element; det of the gradient map's
-     Jacobian equals the volume Jacobian (identity on generic points); the interior-node map of order elevation follows
-     the same vertex convention (rules/C13); values and volumes are restricted by the same block;
+Every clause is decided on *values*: the functions named below are interpreted (rules/C03_interp.MeshInterp: exact symbolic arrays of
+concrete shape; nothing of the library is imported or run) on generic inputs -- elements with symbolic vertex coordinates, symbolic
+shape-function tables, weights, nodal fields, opaque user kernels -- and the results are compared, as exact polynomial / rational
+identities, with what the property needs.  How the code is organised (helpers, closures, partial, vmap vs broadcasting, loops vs
+vectorised forms, dict dispatch, ...) does not enter.
+
+  a  dispatch: compute_shapes sends every element type (each constant the module defines, and the type stamped by each parent-element
+     maker) to the shape routine of that element with the element's own degree / nodes and the given points; the function-space factory
+     maps each advertised mode2D to volumes and an isAxisymmetric flag that agree, and stores the fields in the right slots;
+  b  axisymmetric weight: volumes = 2*pi * r(xi_q) * (Cartesian volumes), r = radius (column 0) interpolated with the element's shape
+     functions; same radial column in Mechanics.axisymmetric_gradient / TensorMath.gradient_2D_to_axisymmetric (hoop strain u_r / r);
+  c  affine map: x = xi0 X_v0 + xi1 X_v1 + (1 - xi0 - xi1) X_v2 over the *vertex nodes of the parent element*: volumes = det(dx/dxi) w_q,
+     mapped gradients g satisfy g . dx/dxi = dN (so both belong to this one map, which is also the map order elevation places nodes with,
+     rules/C03_mesh.py); block integration contracts the block's values with the block's volumes; the factory evaluates the mesh's parent
+     element at the rule's points;
   d  edge normals: four sibling implementations agree (rules/C16);
-  e  index typing of the parametric axis xi versus the physical axis x in map_element_shape_grads:
-     solve(J^T, dN^T)^T : [node, x];
-  f  tabulated rules (constant folding of the literal tables in QuadratureRule): for every branch of the triangle rule
-     the weights are positive, the points lie in the reference triangle and all monomial moments up to the largest degree
-     admitted by the branch equal a! b!/(a+b+2)!; the 1D rule uses ceil((degree+1)/2) Gauss points (2n-1 >= degree for
-     degree 0..25);
-  g  edge integration: integrand weights are (edge Jacobian * Gauss weights); field and coordinates are interpolated
-     with the same edge shape functions at the same points; the normal comes from Mesh.compute_edge_vectors.
-Not decided: partition of unity / reproduction by the Vandermonde inversion (numerical linear algebra), the divergence
-theorem on physical meshes as numbers.
+  e  axis typing of map_element_shape_grads: result [node, x] (the identity g J = dN fails for solve(J, .) or a missing transpose);
+     field gradient contracts the node axis;
+  f  tabulated rules: for every integer degree the triangle rule accepts, the table it returns has positive weights, points in the
+     reference triangle and exact monomial moments a! b!/(a+b+2)! up to that degree; the 1D rule takes n Gauss points with 2n-1 >= degree;
+  g  edge integration: sum_q f(u(s_q), X(s_q), n) |t| w_q with u, X interpolated by the same 1D shape functions at the rule's points over
+     the nodes conns[element, faceNodes[side]], n = outward normal, |t| = edge length.
+Not decided: partition of unity / reproduction by the Vandermonde inversion (numerical linear algebra), the divergence theorem on
+physical meshes as numbers.
 """
 from __future__ import annotations
 
@@ -25,34 +31,37 @@ import ast
 import math
 from fractions import Fraction
 
-from optilint.cfg import cfg_of
-from optilint.model import dotted
 from optilint.core import Incomplete
-from optilint.expr import Algebra, NotPolynomial
-from optilint.tensoreval import Dual, Arr, EvalError, Raised, _A, rat_is_zero
-from .common import Unifier, sem_same, normalize, canon, return_normal_form, src, same, calls_in, const_value, expand
-from . import materials as mt
+from optilint.tensoreval import Dual, Arr, EvalError, Raised, Unknown, Record, PyFunc, Closure, _A, rat_const, d_fun
+from .C03_interp import MeshInterp, fresh_interp, int_arr, ints_of, const_of, rows_of, Opaque, Singular
+from . import C03_mesh as M
+from .C03_mesh import ERRS, eq, sym_arr, opaque_fn, opaque_value
 
 LEVEL = "other"
-RULE_TEXT = ("obligations = (element type / mode2D x dispatch branch) + (axisymmetric weight identity) + (Jacobian identity) + (axis typing) + "
-             "(quadrature table branch x monomial moment) + (edge integration role)")
-EXPLANATION = ("Dispatch-table, sibling and role rules on Interpolants/FunctionSpace/Mesh/Surface, index typing of parametric vs physical axes, "
-               "symbolic identities of the affine map on generic points, and constant folding of the literal quadrature tables against the "
-               "exact monomial moments of the reference triangle. Reproduction properties of the Vandermonde-inverted basis are not decided.")
+RULE_TEXT = ("obligations = (element type / mode2D x dispatch result) + (axisymmetric weight identity) + (affine-map identities of volumes and "
+             "gradients) + (axis typing) + (quadrature degree x monomial moment) + (edge integral identity)")
+EXPLANATION = ("Symbolic interpretation of Interpolants/FunctionSpace/Mesh/QuadratureRule kernels on generic elements (symbolic vertices, shape "
+               "tables, weights, fields, opaque kernels); results compared as exact identities with the affine-map specification; constant "
+               "folding of the literal quadrature tables against the exact monomial moments of the reference triangle. Reproduction "
+               "properties of the Vandermonde-inverted basis are not decided.")
 
 FS = "optimism.FunctionSpace"
 IP = "optimism.Interpolants"
 QR = "optimism.QuadratureRule"
+ME = "optimism.Mesh"
 
 
 def run(ctx):
-    for m in (FS, IP, QR, "optimism.Mesh", "optimism.Surface", "optimism.Mechanics", "optimism.TensorMath"):
+    for m in (FS, IP, QR, ME, "optimism.Surface", "optimism.Mechanics", "optimism.TensorMath"):
         ctx.need_module(m)
     ctx.guard(a_dispatch, ctx)
+    ctx.guard(a_modes, ctx)
     ctx.guard(b_axisymmetric, ctx)
     ctx.guard(c_affine, ctx)
+    ctx.guard(c_block_integration, ctx)
     ctx.guard(e_axis_typing, ctx)
     ctx.guard(f_tables, ctx)
+    ctx.guard(f_rule_1d, ctx)
     ctx.guard(g_edges, ctx)
     from . import C16, C13
     ctx.guard(C16.o1_normals, _Ren(ctx, "d/"))
@@ -60,7 +69,11 @@ def run(ctx):
     from . import parentelem
     ctx.guard(parentelem.run, ctx, "c/T6-parent-element-tables")
     ctx.trust("integral of x^a y^b over the unit triangle = a! b! / (a+b+2)!; n-point Gauss-Legendre is exact to degree 2n-1")
+    ctx.trust("the 1D Lagrange shape functions of the line parent element sum to one and reproduce the edge coordinate (used only to give the "
+              "interpolated coordinates of a straight edge one normal form)")
     ctx.assume("literal table entries carry ~15 significant digits: moments are compared with tolerance 2e-14")
+    ctx.assume("element kernels are mesh-size uniform (vmap / broadcasting over elements): identities shown on generic elements with symbolic "
+               "vertex coordinates hold for every element of every mesh")
 
 
 class _Ren:
@@ -86,339 +99,660 @@ class _Ren:
         return self._c.proved(self._r(rule), *a, **kw)
 
 
+# ----------------------------------------------------------------------------- helpers
+
+def fn_value(I, qual):
+    mname, _, f = qual.partition(":")
+    return I.module_value(I.repo.modules[mname], f)
+
+
+def show(x):
+    if isinstance(x, Dual):
+        return repr(x.a)
+    if isinstance(x, Arr):
+        s = ", ".join(repr(v.a) for v in x.data[:6])
+        return f"[{s}{', ...' if len(x.data) > 6 else ''}] shape {x.shape}"
+    return repr(x)
+
+
+def first_mismatch(got, want):
+    """got / want: Arr (or Dual) of equal shape; returns None if identical, else (flat index, got, want) or a shape message"""
+    if isinstance(got, Unknown):
+        raise EvalError(f"value not evaluated: {got.why[:120]}")
+    if isinstance(want, Dual):
+        if isinstance(got, Arr) and got.size() == 1:
+            got = got.data[0]
+        if not isinstance(got, Dual):
+            if isinstance(got, (int, float, Fraction)) and not isinstance(got, bool):
+                got = Dual.of(got)
+            else:
+                return f"a {type(got).__name__} where a scalar is expected"
+        return None if eq(got, want) else (0, got, want)
+    if not isinstance(got, Arr):
+        return f"{show(got)} where an array of shape {want.shape} is expected"
+    if tuple(got.shape) != tuple(want.shape):
+        return f"shape {tuple(got.shape)} where {tuple(want.shape)} is expected"
+    for i, (g, w) in enumerate(zip(got.data, want.data)):
+        if not eq(g, w):
+            return (i, g, w)
+    return None
+
+
+def short(x, n=220):
+    r = repr(x.a) if isinstance(x, Dual) else str(x)
+    return r if len(r) <= n else r[:n] + " ..."
+
+
+def describe(mm, what="entry"):
+    if mm is None:
+        return ""
+    if isinstance(mm, str):
+        return mm
+    i, g, w = mm
+    return f"{what} {i} is `{short(g)}`; the specification gives `{short(w)}`"
+
+
+def same_value(a, b):
+    """identity, or equal arrays / numbers (a copy or a re-wrapped array is the same value)"""
+    if a is b:
+        return True
+    if isinstance(a, Arr) and isinstance(b, Arr):
+        return tuple(a.shape) == tuple(b.shape) and all(eq(x, y) for x, y in zip(a.data, b.data))
+    ca, cb = const_of(a), const_of(b)
+    if ca is not None and cb is not None and not isinstance(a, (Arr, Record)) and not isinstance(b, (Arr, Record)):
+        return ca == cb
+    return False
+
+
+def touch_visited(ctx, I, modules):
+    for q in I.visited:
+        s_ = ctx.repo.find(q)
+        if s_ is not None and s_.module.name in modules:
+            ctx.touch(s_)
+
+
+def evaluate(ctx, rule, scope, construct, thunk):
+    """Run an interpretation; an un-modelled operation / unexpected shape makes the obligation UNDECIDED and returns None."""
+    try:
+        return thunk()
+    except ERRS as ex:
+        ctx.undecided(rule, scope, None, construct=construct, detail=f"cannot interpret: {type(ex).__name__}: {str(ex)[:300]}")
+        return None
+
+
+def shape_functions(I, values, gradients):
+    return I.call(fn_value(I, f"{IP}:ShapeFunctions"), [], {"values": values, "gradients": gradients})
+
+
+def quadrature_rule(I, xi, w):
+    return I.call(fn_value(I, f"{QR}:QuadratureRule"), [], {"xigauss": xi, "wgauss": w})
+
+
+# ----------------------------------------------------------------------------- a: dispatch
+
 def a_dispatch(ctx):
     rule = "a/T14-dispatch"
     mod = ctx.need_module(IP)
-    consts = [st.targets[0].id for st in mod.tree.body if isinstance(st, ast.Assign) and isinstance(st.targets[0], ast.Name)
-              and st.targets[0].id.endswith("_ELEMENT") or (isinstance(st, ast.Assign) and isinstance(st.targets[0], ast.Name) and "ELEMENT" in st.targets[0].id)]
-    consts = sorted(set(consts))
     cs = ctx.need(f"{IP}:compute_shapes")
-    handled = set()
-    for n in ast.walk(cs.node):
-        if isinstance(n, ast.Compare) and isinstance(n.ops[0], ast.Eq) and src(n.left).endswith(".elementType") and isinstance(n.comparators[0], ast.Name):
-            handled.add(n.comparators[0].id)
-    for c in consts:
-        ctx.decide(rule, c in handled, cs, None, construct=f"compute_shapes:{c}", detail=f"element type {c} has a branch",
-                   bad_detail=f"compute_shapes has no branch for element type {c}")
-    if len(consts) < 3:
-        raise Incomplete(f"element type constants found: {consts}")
-    # constants distinct
-    vals = {}
+    # element-type constants the module advertises: module-level integer constants whose value is an element type (public API names)
+    consts = {}
+    I0 = fresh_interp(ctx.repo)
     for st in mod.tree.body:
-        if isinstance(st, ast.Assign) and isinstance(st.targets[0], ast.Name) and st.targets[0].id in consts:
-            vals[st.targets[0].id] = const_value(st.value)
-    ctx.decide(rule, len(set(vals.values())) == len(vals), mod.scope, None, construct="element-type-constants-distinct", detail=str(vals),
-               bad_detail=f"element type constants are not distinct: {vals}")
-    # makers stamp their own type
-    for fn, want in (("make_parent_element_1d", "LINE_ELEMENT"), ("make_parent_element_2d", "TRIANGLE_ELEMENT"), ("make_parent_element_2d_with_bubble", "TRIANGLE_ELEMENT_WITH_BUBBLE")):
-        sc = ctx.need(f"{IP}:{fn}")
-        r = sc.returns()
-        ok = len(r) == 1 and isinstance(r[0], ast.Call) and r[0].args and src(r[0].args[0]) == want
-        ctx.decide(rule, ok, sc, r[0] if r else None, construct=f"{fn}:element-type", detail=f"{fn} -> {want}",
-                   bad_detail=f"{fn} builds a ParentElement of type `{src(r[0].args[0]) if r and r[0].args else '?'}`, expected {want}")
-    # mode table
-    for q in (f"{FS}:construct_function_space_from_parent_element",):
-        sc = ctx.need(q)
-        cfg = cfg_of(sc)
-        table = {}
-        for n in cfg.nodes:
-            if n.kind == "stmt" and isinstance(n.ast, ast.Assign) and isinstance(n.ast.targets[0], ast.Name):
-                facts = [(src(c.ast), l) for (c, l) in cfg.edge_facts(n) if c.kind == "cond" and l]
-                for (t, l) in facts:
-                    if "mode2D ==" in t:
-                        mode = t.split("==")[1].strip().strip("'\"")
-                        table.setdefault(mode, {})[n.ast.targets[0].id] = src(n.ast.value)
-        want = {"cartesian": ("compute_element_volumes", "False"), "axisymmetric": ("compute_element_volumes_axisymmetric", "True")}
-        for mode, (vf, flag) in want.items():
-            got = table.get(mode, {})
-            vals_ = set(got.values())
-            ok = vf in vals_ and flag in vals_
-            ctx.decide(rule, ok, sc, None, construct=f"mode:{mode}", detail=f"{mode}: {got}",
-                       bad_detail=f"mode2D='{mode}' selects {got}; expected volume function {vf} with isAxisymmetric={flag}")
-        # the selected function / flag reach the constructor
-        r = sc.returns()
-        u = Unifier(sc)
-        p_ = sc.params()
-        n1 = u.assigns(f"jax.vmap(lambda elConns, elShape: elShape, (0, None))({p_[0]}.conns, {p_[1]}.values)", target="shapes")
-        n2 = u.assigns(f"jax.vmap(map_element_shape_grads, (None, 0, None, None))({p_[0]}.coords, {p_[0]}.conns, {p_[0]}.parentElement, {p_[1]}.gradients)", target="shapeGrads")
-        n3 = u.assigns(f"jax.vmap(el_vols, (None, 0, None, 0, None))({p_[0]}.coords, {p_[0]}.conns, {p_[0]}.parentElement, shapes, {p_[2]}.wgauss)", target="vols")
-        ok = len(n1) == len(n2) == len(n3) == 1 and len(r) == 1 and u.match(r[0], f"FunctionSpace(shapes, vols, shapeGrads, {p_[0]}, {p_[2]}, isAxisymmetric)")
-        ctx.decide(rule, ok, sc, r[0] if r else None, construct="FunctionSpace-fields", detail="FunctionSpace(shapes, vols, shapeGrads, mesh, quadratureRule, isAxisymmetric)",
-                   bad_detail=f"FunctionSpace constructed as `{src(r[0]) if r else '?'}`")
+        if isinstance(st, ast.Assign) and len(st.targets) == 1 and isinstance(st.targets[0], ast.Name) and "ELEMENT" in st.targets[0].id.upper():
+            try:
+                v = const_of(I0.module_value(mod, st.targets[0].id))
+            except ERRS:
+                v = None
+            if v is not None:
+                consts[st.targets[0].id] = v
+    if len(consts) < 3:
+        raise Incomplete(f"element type constants found: {sorted(consts)}")
+    ctx.decide(rule, len(set(consts.values())) == len(consts), mod.scope, None, construct="element-type-constants-distinct", detail=str(consts),
+               bad_detail=f"element type constants are not distinct: {consts}")
+    makers = {"make_parent_element_1d": "shape1d", "make_parent_element_2d": "shape2d", "make_parent_element_2d_with_bubble": "shape2dBubble"}
+    for r_ in makers.values():
+        ctx.need(f"{IP}:{r_}")
 
+    def dispatch(pe):
+        """which shape routine compute_shapes calls for parent element `pe`, with which arguments"""
+        I = fresh_interp(ctx.repo)
+        log = []
+        def stub(r_):
+            def f(it, args, kw):
+                log.append((r_, list(args), dict(kw)))
+                return shape_functions(it, sym_arr(f"val_{r_}", (2, 3)), sym_arr(f"grad_{r_}", (2, 3, 2)))
+            return f
+        for r_ in set(makers.values()):
+            I.special[f"{IP}:{r_}"] = stub(r_)
+        pts = sym_arr("p", (2, 2))
+        try:
+            res = I.call(fn_value(I, f"{IP}:compute_shapes"), [pe, pts], {})
+        except Raised as ex:
+            return ("raise", str(ex)), log, pts
+        return res, log, pts
+    # every advertised constant has a handler
+    for cname, cval in sorted(consts.items()):
+        def go(cval=cval):
+            I = fresh_interp(ctx.repo)
+            pe = I.call(fn_value(I, f"{IP}:ParentElement"), [], {"elementType": int(cval), "degree": 2, "coordinates": sym_arr("c", (3, 2)),
+                                                              "vertexNodes": int_arr([0, 1, 2]), "faceNodes": None, "interiorNodes": int_arr([])})
+            return dispatch(pe)
+        r = evaluate(ctx, rule, cs, f"compute_shapes:{cname}", go)
+        if r is None:
+            continue
+        res, log, _ = r
+        handled = isinstance(res, Record) and len(log) >= 1
+        ctx.decide(rule, True if handled else (False if (isinstance(res, tuple) and res and res[0] == "raise") or res is None else None), cs, None,
+                   construct=f"compute_shapes:{cname}", detail=f"element type {cname} = {cval} is evaluated by {log[0][0] if log else '?'}",
+                   bad_detail=f"compute_shapes has no branch for element type {cname} = {cval}: " +
+                              (f"it raises `{res[1]}`" if isinstance(res, tuple) else "it returns nothing" if res is None else f"it returns {res!r}"))
+    # each maker stamps a type that compute_shapes sends to the routine of that element, with the element's own data
+    for mk, want in makers.items():
+        sc = ctx.need(f"{IP}:{mk}")
+
+        def go(mk=mk):
+            I = fresh_interp(ctx.repo)
+            pe = I.call(fn_value(I, f"{IP}:{mk}"), [2], {})
+            if not isinstance(pe, Record):
+                raise EvalError(f"{mk}(2) is {pe!r}")
+            return (pe,) + dispatch(pe)
+        r = evaluate(ctx, rule, sc, f"{mk}:element-type", go)
+        if r is None:
+            continue
+        pe, res, log, pts = r
+        et = const_of(pe.get("elementType"))
+        names = [k for k, v in consts.items() if v == et]
+        if isinstance(res, tuple) and res and res[0] == "raise" or res is None or not log:
+            ctx.refuted(rule, sc, None, construct=f"{mk}:element-type",
+                        detail=f"{mk} builds a ParentElement of type {et} ({names or 'no constant'}), for which compute_shapes " +
+                               (f"raises `{res[1]}`" if isinstance(res, tuple) else "evaluates no shape routine"))
+            continue
+        routines = sorted({l[0] for l in log})
+        if routines != [want]:
+            # exactly one call of a *different* element's routine is a derived fault; any other pattern (several routines combined, ...) is not understood
+            ok = False if (len(log) == 1) else None
+            why = f"compute_shapes evaluates an element of type {et} ({names}) built by {mk} with {routines}, expected {want}"
+        else:
+            ok = True
+            why = ""
+            sc_r = ctx.repo.find(f"{IP}:{want}")
+            ps = sc_r.params()
+            for (_, args, kw) in log:
+                bound = dict(zip(ps, args))
+                bound.update(kw)
+                vals = list(bound.values())
+                uses_pts = any(same_value(v, pts) for v in vals)
+                if want == "shape2dBubble":
+                    okargs = any(v is pe or (isinstance(v, Record) and M._same_tables(v, pe)) for v in vals) and uses_pts
+                else:
+                    okargs = any(same_value(v, pe.get("coordinates")) for v in vals) and uses_pts and \
+                        any(same_value(v, pe.get("degree")) for v in vals if not isinstance(v, (Arr, Record)))
+                if not okargs:
+                    ok = False
+                    why = (f"{want} is called with ({', '.join(show(v) if isinstance(v, (Arr, Dual)) else repr(v) for v in vals)}): not with the element's own degree "
+                           f"{pe.get('degree')!r} / nodal coordinates and the given points")
+        ctx.decide(rule, ok, sc, None, construct=f"{mk}:element-type", detail=f"{mk} -> type {et} {names} -> {want}(own degree, own nodes, points)",
+                   bad_detail=why)
+
+
+# ----------------------------------------------------------------------------- function-space fixtures and specifications
+
+class Fixture:
+    """Two disjoint generic elements of the given order, symbolic reference shape tables and rule."""
+    def __init__(self, ctx, order=2, bubble=False, nq=2, ntri=2):
+        self.I = I = fresh_interp(ctx.repo)
+        self.mesh, self.V, self.pe, self.pe1 = M.spec_mesh(I, order, bubble, ntri=ntri)
+        self.nn = M.table(self.pe, "coordinates").shape[0]
+        self.nq, self.nt = nq, ntri
+        self.N = sym_arr("N", (nq, self.nn))
+        self.dN = sym_arr("dN", (nq, self.nn, 2))
+        self.w = sym_arr("w", (nq,))
+        self.xi = sym_arr("xi", (nq, 2))
+        self.shapeOnRef = shape_functions(I, self.N, self.dN)
+        self.rule = quadrature_rule(I, self.xi, self.w)
+        self.conns = ints_of(self.mesh.get("conns"))
+        self.coords = self.mesh.get("coords")
+
+    def node(self, t, n):
+        return self.conns[t * self.nn + n]
+
+    def X(self, t, n, c):
+        return self.coords.data[2 * self.node(t, n) + c]
+
+    def det(self, t):
+        J0, J1 = M.jacobian_columns(self.V[t])
+        return M.cross2(J0, J1)
+
+    def spec_vols(self, t, axisymmetric):
+        out = []
+        for q in range(self.nq):
+            v = self.w.data[q] * self.det(t)
+            if axisymmetric:
+                r = Dual(0)
+                for n in range(self.nn):
+                    r = r + self.N.data[q * self.nn + n] * self.X(t, n, 0)
+                v = Dual(2) * Dual(_A.atom("pi")) * r * v
+            out.append(v)
+        return Arr(out, (self.nq,))
+
+    def grads_mismatch(self, g, t):
+        """g: (nq, nn, 2) mapped gradients of element t.  None if  sum_i g[q,n,i] dx_i/dxi_a == dN[q,n,a]  for all q, n, a."""
+        if isinstance(g, Unknown):
+            raise EvalError(f"gradients not evaluated: {g.why[:120]}")
+        if not isinstance(g, Arr) or tuple(g.shape) != (self.nq, self.nn, 2):
+            return f"mapped gradients have shape {tuple(g.shape) if isinstance(g, Arr) else type(g).__name__}; [point, node, x] = {(self.nq, self.nn, 2)} is required"
+        J = M.jacobian_columns(self.V[t])
+        for q in range(self.nq):
+            for n in range(self.nn):
+                g0, g1 = g.data[(q * self.nn + n) * 2], g.data[(q * self.nn + n) * 2 + 1]
+                for a in range(2):
+                    lhs = g0 * J[a][0] + g1 * J[a][1]
+                    want = self.dN.data[(q * self.nn + n) * 2 + a]
+                    if not eq(lhs, want):
+                        return (f"at point {q}, node {n}: grad_x N . dx/dxi{a} = {lhs.a!r}, but dN/dxi{a} = {want.a!r} "
+                                f"(x = xi0 X_v0 + xi1 X_v1 + (1-xi0-xi1) X_v2 over the parent element's vertex nodes)")
+        return None
+
+
+def sub_arr(a, t):
+    return rows_of(a)[t]
+
+
+# ----------------------------------------------------------------------------- a: modes of the factory
+
+def a_modes(ctx):
+    rule = "a/T14-dispatch"
+    sc = ctx.need(f"{FS}:construct_function_space_from_parent_element")
+    results = {}
+    for mode, axi in (("cartesian", False), ("axisymmetric", True)):
+        def go(mode=mode):
+            F = Fixture(ctx, order=2, bubble=False)
+            fs = F.I.call(fn_value(F.I, f"{FS}:construct_function_space_from_parent_element"), [F.mesh, F.shapeOnRef, F.rule, mode], {})
+            touch_visited(ctx, F.I, (FS,))
+            if not isinstance(fs, Record):
+                raise EvalError(f"result is {fs!r}")
+            return F, fs
+        r = evaluate(ctx, rule, sc, f"mode:{mode}", go)
+        if r is None:
+            continue
+        F, fs = r
+        results[mode] = r
+
+        def verdict(F=F, fs=fs, axi=axi):
+            flag = fs.get("isAxisymmetric")
+            if not isinstance(flag, bool):
+                raise EvalError(f"isAxisymmetric is {flag!r}")
+            vols = fs.get("vols")
+            bad = None
+            if flag != axi:
+                bad = f"isAxisymmetric = {flag}"
+            for t in range(F.nt):
+                mm = first_mismatch(sub_arr(vols, t) if isinstance(vols, Arr) and vols.ndim == 2 and vols.shape[0] == F.nt else vols, F.spec_vols(t, axi))
+                if mm is not None and bad is None:
+                    # does the other mode's specification fit?  (then the table is crossed, which is the more useful message)
+                    other = first_mismatch(sub_arr(vols, t), F.spec_vols(t, not axi)) if isinstance(vols, Arr) and vols.ndim == 2 and vols.shape[0] == F.nt else "x"
+                    bad = (f"the volumes are those of the {'Cartesian' if axi else 'axisymmetric'} mode" if other is None
+                           else "volumes of element %d: %s" % (t, describe(mm, "point")))
+            return bad
+        bad = evaluate(ctx, rule, sc, f"mode:{mode}", lambda: (verdict(),))
+        if bad is None:
+            continue
+        bad = bad[0]
+        ctx.decide(rule, bad is None, sc, None, construct=f"mode:{mode}",
+                   detail=f"mode2D='{mode}': isAxisymmetric={axi}, vols = {'2 pi r(xi_q) ' if axi else ''}det(dx/dxi) w_q",
+                   bad_detail=f"mode2D='{mode}' gives {bad}; expected isAxisymmetric={axi} with {'2*pi*r*' if axi else ''}det(dx/dxi)*w_q")
+    if "cartesian" in results:
+        F, fs = results["cartesian"]
+
+        def fields():
+            bad = None
+            shapes = fs.get("shapes")
+            for t in range(F.nt):
+                mm = first_mismatch(sub_arr(shapes, t) if isinstance(shapes, Arr) and shapes.ndim == 3 else shapes, F.N)
+                if mm is not None:
+                    bad = bad or f"shapes of element {t}: {describe(mm)} (every element carries the reference shape values)"
+            g = fs.get("shapeGrads")
+            if isinstance(g, Unknown):
+                raise EvalError(f"shapeGrads not evaluated: {g.why[:120]}")
+            if bad is None and (not isinstance(g, Arr) or g.ndim != 4 or g.shape[0] != F.nt):
+                bad = f"shapeGrads has shape {getattr(g, 'shape', None)}; [element, point, node, x] is required"
+            if bad is None:
+                for t in range(F.nt):
+                    m = F.grads_mismatch(sub_arr(g, t), t)
+                    if m is not None:
+                        bad = f"shapeGrads of element {t}: {m}"
+                        break
+            if bad is None and fs.get("mesh") is not F.mesh:
+                m_ = fs.get("mesh")
+                if not isinstance(m_, Record) or "coords" not in m_.fields or "conns" not in m_.fields:
+                    raise EvalError(f"field mesh is {m_!r}")
+                if not (same_value(m_.get("coords"), F.coords) and same_value(m_.get("conns"), F.mesh.get("conns"))):
+                    bad = "field `mesh` is not the mesh the space was built on"
+            if bad is None and fs.get("quadratureRule") is not F.rule:
+                q_ = fs.get("quadratureRule")
+                if not isinstance(q_, Record) or not (same_value(q_.values[0], F.xi) and same_value(q_.values[1], F.w)):
+                    bad = "field `quadratureRule` is not the rule the space was built with"
+            return (bad,)
+        r = evaluate(ctx, rule, sc, "FunctionSpace-fields", fields)
+        if r is not None:
+            ctx.decide(rule, r[0] is None, sc, None, construct="FunctionSpace-fields",
+                       detail="shapes = reference values per element, shapeGrads . dx/dxi = reference gradients, mesh and rule stored as given",
+                       bad_detail=f"FunctionSpace built by the factory: {r[0]}")
+
+
+# ----------------------------------------------------------------------------- b: axisymmetric weight
 
 def b_axisymmetric(ctx):
     rule = "b/T7-axisymmetric-weight"
     sc = ctx.need(f"{FS}:compute_element_volumes_axisymmetric")
-    cfg = cfg_of(sc)
-    ps = sc.params()
-    r = cfg.returns()
-    e = expand(cfg, r[0], r[0].ast.value) if r else None
-    cart = f"compute_element_volumes({', '.join(ps)})"
-    want = f"2*np.pi*({ps[3]} @ {ps[0]}.take({ps[1]}, 0)[:, 0])*{cart}"
-    ok = e is not None and sem_same(e, want, sc)
-    ctx.decide(rule, ok, sc, r[0].ast if r else None, construct="vols_axi=2*pi*r(xi_q)*vols",
-               detail="2*pi*(shapes @ X_nodes[:,0])*compute_element_volumes(same arguments)",
-               bad_detail=f"axisymmetric volumes are `{src(e) if e is not None else '?'}`; expected 2*pi times the radius interpolated at each quadrature point "
-                          f"(shapes @ X_nodes[:,0]) times the Cartesian volumes of the same element")
-    # radial column agreement
-    ag = ctx.need("optimism.Mechanics:axisymmetric_gradient")
-    g2 = ctx.need("optimism.TensorMath:gradient_2D_to_axisymmetric")
-    for s_, disp, coord in ((ag, ag.params()[1], ag.params()[2]), (g2, g2.params()[1], g2.params()[2])):
-        hit = [c for c in ast.walk(s_.node) if isinstance(c, ast.Call) and isinstance(c.func, ast.Attribute) and c.func.attr == "set"
-               and "at[2, 2]" in src(c.func.value)]
-        ok = len(hit) == 1 and same(hit[0].args[0], f"{disp}[0]/{coord}[0]")
-        ctx.decide(rule, ok, s_, hit[0] if hit else None, construct=f"{s_.name}:hoop-strain=u_r/r", detail="entry (2,2) = u[0]/X[0] (column 0 is the radius)",
-                   bad_detail=f"{s_.name}: hoop entry is `{src(hit[0].args[0]) if hit else '?'}`; the radius is column 0 everywhere else")
-    # element-level transformation interpolates disp and coords with the element shapes
-    at = ctx.need("optimism.Mechanics:axisymmetric_element_gradient_transformation")
-    cfg2 = cfg_of(at)
-    r2 = cfg2.returns()
-    e2 = expand(cfg2, r2[0], r2[0].ast.value) if r2 else None
-    p = at.params()
-    ok = e2 is not None and same(e2, f"vmap(axisymmetric_gradient)({p[0]}, {p[1]} @ {p[3]}, {p[1]} @ {p[4]})")
-    ctx.decide(rule, ok, at, r2[0].ast if r2 else None, construct="axisymmetric-transformation-roles", detail="(grads, shapes@disps, shapes@coords)",
-               bad_detail=f"axisymmetric gradient transformation is `{src(e2) if e2 is not None else '?'}`")
+    for bubble in (False, True):
+        cons = "vols_axi=2*pi*r(xi_q)*vols" + ("[bubble]" if bubble else "")
 
+        def go(bubble=bubble):
+            F = Fixture(ctx, order=2, bubble=bubble)
+            t = 1
+            nodes = int_arr([F.node(t, n) for n in range(F.nn)])
+            got = F.I.call(fn_value(F.I, f"{FS}:compute_element_volumes_axisymmetric"), [F.coords, nodes, F.pe, F.N, F.w], {})
+            touch_visited(ctx, F.I, (FS,))
+            mm = first_mismatch(got, F.spec_vols(t, True))
+            factor = ""
+            if isinstance(mm, tuple):
+                # the weight the code applies = its volume / the Cartesian volume of the same point (more readable than the product)
+                q = mm[0]
+                try:
+                    ratio = mm[1] / F.spec_vols(t, False).data[q]
+                    want = mm[2] / F.spec_vols(t, False).data[q]
+                    factor = f"at quadrature point {q} the Cartesian volume is weighted by `{short(ratio)}`; the axisymmetric weight is `{short(want)}`"
+                except ERRS:
+                    factor = ""
+            return (mm, first_mismatch(got, F.spec_vols(t, False)), factor)
+        r = evaluate(ctx, rule, sc, cons, go)
+        if r is None:
+            continue
+        mm, mm_cart, factor = r
+        ctx.decide(rule, mm is None, sc, None, construct=cons,
+                   detail="2*pi*(shapes @ X_nodes[:,0])*det(dx/dxi)*w_q on a generic element",
+                   bad_detail="axisymmetric volumes: " + (factor or describe(mm, 'quadrature point')) + (" (these are the Cartesian volumes)" if mm_cart is None else "") +
+                              "; expected 2*pi times the radius interpolated at each quadrature point (shapes @ X_nodes[:,0]) times the Cartesian volume")
+    # radial column agreement: hoop strain u_r / r with r = column 0, other entries the planar gradient
+    H = sym_arr("H", (2, 2))
+    u = sym_arr("u", (2,))
+    X = sym_arr("X", (2,))
+
+    def want33(Hq, uq, Xq):
+        out = [Dual(0)] * 9
+        for i in range(2):
+            for j in range(2):
+                out[i * 3 + j] = Hq.data[i * 2 + j]
+        out[8] = uq.data[0] / Xq.data[0]
+        return Arr(out, (3, 3))
+    for q in ("optimism.Mechanics:axisymmetric_gradient", "optimism.TensorMath:gradient_2D_to_axisymmetric"):
+        s_ = ctx.need(q)
+        cons = f"{s_.name}:hoop-strain=u_r/r"
+
+        def go(q=q):
+            I = fresh_interp(ctx.repo)
+            return (first_mismatch(I.call(fn_value(I, q), [H, u, X], {}), want33(H, u, X)),)
+        r = evaluate(ctx, rule, s_, cons, go)
+        if r is not None:
+            ctx.decide(rule, r[0] is None, s_, None, construct=cons, detail="entry (2,2) = u[0]/X[0] (column 0 is the radius), planar block = 2D gradient",
+                       bad_detail=f"{s_.name}: {describe(r[0])}; the radius is column 0 everywhere else (entry 8 = (2,2) must be u[0]/X[0])")
+    at = ctx.need("optimism.Mechanics:axisymmetric_element_gradient_transformation")
+
+    def go():
+        I = fresh_interp(ctx.repo)
+        nq, nn = 2, 3
+        G = sym_arr("G", (nq, 2, 2))
+        N = sym_arr("N", (nq, nn))
+        vols = sym_arr("vol", (nq,))
+        U = sym_arr("U", (nn, 2))
+        Xn = sym_arr("Xn", (nn, 2))
+        got = I.call(fn_value(I, "optimism.Mechanics:axisymmetric_element_gradient_transformation"), [G, N, vols, U, Xn], {})
+        rows = []
+        for q_ in range(nq):
+            uq = Arr([sum((N.data[q_ * nn + n] * U.data[n * 2 + c] for n in range(nn)), Dual(0)) for c in range(2)], (2,))
+            xq = Arr([sum((N.data[q_ * nn + n] * Xn.data[n * 2 + c] for n in range(nn)), Dual(0)) for c in range(2)], (2,))
+            rows.append(want33(rows_of(G)[q_], uq, xq))
+        from .C03_interp import stack_rows
+        return (first_mismatch(got, stack_rows(rows)),)
+    r = evaluate(ctx, rule, at, "axisymmetric-transformation-roles", go)
+    if r is not None:
+        ctx.decide(rule, r[0] is None, at, None, construct="axisymmetric-transformation-roles",
+                   detail="per point: (planar gradient, shapes@disps, shapes@coords) -> hoop strain (N u)_0 / (N X)_0",
+                   bad_detail=f"axisymmetric gradient transformation: {describe(r[0])}")
+
+
+# ----------------------------------------------------------------------------- c: affine map
 
 def c_affine(ctx):
     rule = "c/T6-affine-map"
     mg = ctx.need(f"{FS}:map_element_shape_grads")
     ev = ctx.need(f"{FS}:compute_element_volumes")
-    mod = ctx.need_module(FS)
-    # the kernels are compared in normal form: return value expanded to the parameters with small helpers inlined
-    A = Algebra()
-    import copy
-    norm = {}
-    for sc in (mg, ev):
-        cfg = cfg_of(sc)
-        r_ = cfg.returns()
-        norm[sc.name] = return_normal_form(sc)
-    vert = {sc.name: canon(f"{sc.params()[0]}.take({sc.params()[1]}, 0)[{sc.params()[2]}.vertexNodes]") for sc in (mg, ev)}
+    for bubble in (False, True):
+        sfx = "[bubble]" if bubble else ""
 
-    def pieces(sc, fname):
-        """argument list of the first call of `fname` in the normal form, and whether every vertex access goes through the parent element's vertex list"""
-        e_ = norm[sc.name]
-        if e_ is None:
-            return None, False
-        calls_ = [c for c in ast.walk(e_) if isinstance(c, ast.Call) and (dotted(c.func) or "").split(".")[-1] == fname]
-        if not calls_:
-            return None, False
-        c = calls_[0]
-        args_ = list(c.args[0].elts) if (len(c.args) == 1 and isinstance(c.args[0], ast.Tuple)) else list(c.args)
-        subs_ = [x for a_ in args_ for x in ast.walk(a_) if isinstance(x, ast.Subscript) and const_value(x.slice) is not None]
-        okv = bool(subs_) and all(canon(x.value) == vert[sc.name] for x in subs_)
-        return args_, okv
+        def go_v(bubble=bubble):
+            F = Fixture(ctx, order=2, bubble=bubble)
+            out = []
+            for t in range(F.nt):
+                nodes = int_arr([F.node(t, n) for n in range(F.nn)])
+                got = F.I.call(fn_value(F.I, f"{FS}:compute_element_volumes"), [F.coords, nodes, F.pe, F.N, F.w], {})
+                out.append(first_mismatch(got, F.spec_vols(t, False)))
+            touch_visited(ctx, F.I, (FS,))
+            return out
+        r = evaluate(ctx, rule, ev, "volumes=det(dx/dxi)*weights" + sfx, go_v)
+        if r is not None:
+            bad = next((m for m in r if m is not None), None)
+            ctx.decide(rule, bad is None, ev, None, construct="volumes=det(dx/dxi)*weights" + sfx,
+                       detail="vols[q] = w_q * det[X_v0 - X_v2, X_v1 - X_v2] over the vertex nodes of the given parent element",
+                       bad_detail=f"compute_element_volumes: {describe(bad, 'quadrature point')}: the volume Jacobian is not det(dx/dxi) of the affine map "
+                                  f"x = xi0 X_v0 + xi1 X_v1 + (1-xi0-xi1) X_v2 over the parent element's vertex nodes (the map the gradients and order elevation use)")
 
-    def pt(e, comp, vtxt):
-        class Rp(ast.NodeTransformer):
-            def visit_Subscript(self, s_):
-                if const_value(s_.slice) is not None and canon(s_.value) == vtxt:
-                    return ast.Name(id=f"v{const_value(s_.slice)}{comp}", ctx=ast.Load())
-                return self.generic_visit(s_)
-        return A.lower(Rp().visit(copy.deepcopy(e)))
-    cols, okv_m = pieces(mg, "column_stack")
-    cr, okv_e = pieces(ev, "cross")
-    for sc, okv in ((mg, okv_m), (ev, okv_e)):
-        ctx.decide(rule, okv, sc, None, construct=f"{sc.name}:vertices-of-the-parent-element",
-                   detail="v = coords.take(nodes,0)[parentElement.vertexNodes]", bad_detail=f"{sc.name} does not take the vertex nodes of the given parent element")
-    try:
-        if not cols or not cr or len(cols) != 2 or len(cr) != 2:
-            raise IndexError("Jacobian columns / cross product not found in the normal form")
-        vm, ve = vert[mg.name], vert[ev.name]
-        J = [[pt(cols[0], "x", vm), pt(cols[1], "x", vm)], [pt(cols[0], "y", vm), pt(cols[1], "y", vm)]]
-        detJ = A.norm(J[0][0] * J[1][1] - J[0][1] * J[1][0])
-        a_, b_ = cr
-        jac = A.norm(pt(a_, "x", ve) * pt(b_, "y", ve) - pt(a_, "y", ve) * pt(b_, "x", ve))
-        ok = A.equal(detJ, jac)
-        ctx.decide(rule, ok, ev, None, construct="det(J)==volume-jacobian", detail=f"det of the gradient map's Jacobian equals cross(...) = {jac!r}",
-                   bad_detail=f"det J of map_element_shape_grads is {detJ!r} but compute_element_volumes uses {jac!r}: gradients and volumes belong to different affine maps")
-        e_ev = norm[ev.name]
-        ok = isinstance(e_ev, ast.BinOp) and isinstance(e_ev.op, ast.Mult) and \
-            any(isinstance(x_, ast.Call) and (dotted(x_.func) or "").split(".")[-1] == "cross" and isinstance(y_, ast.Name) and y_.id == ev.params()[4]
-                for x_, y_ in ((e_ev.left, e_ev.right), (e_ev.right, e_ev.left)))
-        ctx.decide(rule, ok, ev, None, construct="vols=jacobian*weights", detail="jac*weights", bad_detail=f"volumes are `{src(e_ev)[:120]}`")
-    except (NotPolynomial, IndexError, AttributeError) as ex:
-        ctx.undecided(rule, mg, None, construct="det(J)==volume-jacobian", detail=str(ex))
-    # integration restricted by the same block
-    iob = ctx.need(f"{FS}:integrate_over_block")
-    r = iob.returns()
-    u = Unifier(iob)
-    ok = len(r) == 1 and u.match(r[0], "np.dot(vals.ravel(), functionSpace.vols[block].ravel())")
-    vals = u.def_of("vals")
-    ok = ok and len(vals) == 1 and "evaluate_on_block(functionSpace, U, stateVars, dt, func, block," in src(vals[0].value)
-    ctx.decide(rule, ok, iob, r[0] if r else None, construct="integrate=dot(values[block], vols[block])", detail="same block restricts values and volumes",
-               bad_detail="integrate_over_block does not contract the block's values with the block's volumes")
-    # function space factory wires the same parent element / shapes to both maps
-    cf = ctx.need(f"{FS}:construct_function_space_from_parent_element")
-    u = Unifier(cf)
-    p_ = cf.params()
-    calls_ = [c for c in ast.walk(cf.node) if isinstance(c, ast.Call)]
-    ok = any(u.match(c, f"jax.vmap(map_element_shape_grads, (None, 0, None, None))({p_[0]}.coords, {p_[0]}.conns, {p_[0]}.parentElement, {p_[1]}.gradients)") for c in calls_) and \
-        any(u.match(c, f"jax.vmap(el_vols, (None, 0, None, 0, None))({p_[0]}.coords, {p_[0]}.conns, {p_[0]}.parentElement, shapes, {p_[2]}.wgauss)") for c in calls_)
-    ctx.decide(rule, ok, cf, None, construct="factory-wiring", detail="gradients and volumes mapped over the same coords/conns/parent element",
-               bad_detail="construct_function_space_from_parent_element does not map gradients and volumes over the same coordinates, connectivity and parent element")
+        def go_g(bubble=bubble):
+            return _grad_check(ctx, bubble)
+        r = evaluate(ctx, rule, mg, "gradients-of-the-same-affine-map" + sfx, go_g)
+        if r is not None:
+            bad = next((m for m in r if m is not None), None)
+            # shape / transposition faults are reported by rule e; here: the map itself
+            ctx.decide(rule, True if bad is None else (None if bad.startswith("mapped gradients have shape") else False), mg, None,
+                       construct="gradients-of-the-same-affine-map" + sfx,
+                       detail="grad_x N . dx/dxi = dN/dxi with dx/dxi = [X_v0 - X_v2, X_v1 - X_v2] over the parent element's vertex nodes: det(dx/dxi) is the volume Jacobian",
+                       bad_detail=f"map_element_shape_grads: {bad}: gradients and volumes belong to different affine maps")
+    # the public factory evaluates the mesh's parent element at the rule's own points
     c0 = ctx.need(f"{FS}:construct_function_space")
-    r = c0.returns()
-    u = Unifier(c0)
-    q_ = c0.params()
-    st = u.assigns(f"Interpolants.compute_shapes({q_[0]}.parentElement, {q_[1]}.xigauss)", target="shapeOnRef")
-    ok = len(st) == 1 and len(r) == 1 and u.match(r[0], f"construct_function_space_from_parent_element({q_[0]}, shapeOnRef, {q_[1]}, {q_[2]})")
-    ctx.decide(rule, ok, c0, st[0] if st else None, construct="shapes-at-the-rule's-points", detail="shape functions of the mesh's parent element at the rule's own points",
-               bad_detail="construct_function_space does not evaluate the mesh's parent element at the quadrature rule's own points")
 
+    def go():
+        F = Fixture(ctx, order=2, bubble=False)
+        log = []
+
+        def stub(it, args, kw):
+            log.append((list(args), dict(kw)))
+            return F.shapeOnRef
+        F.I.special[f"{IP}:compute_shapes"] = stub
+        fs = F.I.call(fn_value(F.I, f"{FS}:construct_function_space"), [F.mesh, F.rule], {})
+        if not isinstance(fs, Record) or isinstance(fs.get("shapes"), Unknown):
+            raise EvalError(f"result is {fs!r}")
+        if not log:
+            raise EvalError("the shape functions are not obtained from Interpolants.compute_shapes")
+        for (args, kw) in log:
+            vals = args + list(kw.values())
+            if not any(v is F.pe or (isinstance(v, Record) and M._same_tables(v, F.pe)) for v in vals):
+                return ("the shape functions are not those of mesh.parentElement",)
+            if not any(same_value(v, F.xi) for v in vals):
+                return ("the shape functions are not evaluated at quadratureRule.xigauss",)
+        for t in range(F.nt):
+            mm = first_mismatch(sub_arr(fs.get("shapes"), t), F.N)
+            if mm is not None:
+                return (f"shapes of element {t}: {describe(mm)}",)
+        if fs.get("isAxisymmetric") is not False:
+            return (f"default mode gives isAxisymmetric = {fs.get('isAxisymmetric')!r}",)
+        return (None,)
+    r = evaluate(ctx, rule, c0, "shapes-at-the-rule's-points", go)
+    if r is not None:
+        ctx.decide(rule, r[0] is None, c0, None, construct="shapes-at-the-rule's-points",
+                   detail="shape functions of the mesh's parent element at the rule's own points, handed to the factory",
+                   bad_detail=f"construct_function_space: {r[0]}")
+
+
+def _grad_check(ctx, bubble):
+    """map_element_shape_grads on the generic elements: per element None or the first violated identity (memoised per run)."""
+    memo = ctx.__dict__.setdefault("_c03_grad", {})
+    if bubble not in memo:
+        try:
+            F = Fixture(ctx, order=2, bubble=bubble, nq=1)
+            out = []
+            for t in range(F.nt):
+                nodes = int_arr([F.node(t, n) for n in range(F.nn)])
+                n_sing = len(F.I.singular)
+                try:
+                    got = F.I.call(fn_value(F.I, f"{FS}:map_element_shape_grads"), [F.coords, nodes, F.pe, F.dN], {})
+                except Singular as ex:
+                    got = Unknown(str(ex))
+                if isinstance(got, Unknown) and len(F.I.singular) > n_sing:
+                    out.append(f"the Jacobian it inverts, {F.I.singular[-1]}, is singular for every element (its columns are not the two parametric directions "
+                               f"X_v0 - X_v2, X_v1 - X_v2 of the parent element's vertex nodes)")
+                else:
+                    out.append(F.grads_mismatch(got, t))
+            touch_visited(ctx, F.I, (FS,))
+            memo[bubble] = out
+        except ERRS as ex:
+            memo[bubble] = ex
+    if isinstance(memo[bubble], Exception):
+        raise memo[bubble]
+    return memo[bubble]
+
+
+def c_block_integration(ctx):
+    rule = "c/T6-affine-map"
+    iob = ctx.need(f"{FS}:integrate_over_block")
+    cons = "integrate=dot(values[block], vols[block])"
+
+    def go():
+        I = fresh_interp(ctx.repo)
+        mesh, V, pe, pe1 = M.spec_mesh(I, 1, False, ntri=3)
+        nt, nq, nn = 3, 2, 3
+        conns = ints_of(mesh.get("conns"))
+        coords = mesh.get("coords")
+        nN = coords.shape[0]
+        shapes = sym_arr("S", (nt, nq, nn))
+        grads = sym_arr("G", (nt, nq, nn, 2))
+        vols = sym_arr("vol", (nt, nq))
+        xi, w = sym_arr("xi", (nq, 2)), sym_arr("w", (nq,))
+        fs = I.call(fn_value(I, f"{FS}:FunctionSpace"), [], {"shapes": shapes, "vols": vols, "shapeGrads": grads, "mesh": mesh,
+                                                              "quadratureRule": quadrature_rule(I, xi, w), "isAxisymmetric": False})
+        U = sym_arr("U", (nN, 2))
+        state = sym_arr("q", (nt, nq, 1))
+        dt = Dual(_A.atom("dt"))
+        f = opaque_fn("f")
+        block = int_arr([2, 0])
+        got = I.call(fn_value(I, f"{FS}:integrate_over_block"), [fs, U, state, dt, f, block], {})
+        touch_visited(ctx, I, (FS,))
+        want = Dual(0)
+        for t in (2, 0):
+            for q in range(nq):
+                S = lambda n: shapes.data[(t * nq + q) * nn + n]
+                uq = Arr([sum((S(n) * U.data[conns[t * nn + n] * 2 + c] for n in range(nn)), Dual(0)) for c in range(2)], (2,))
+                xq = Arr([sum((S(n) * coords.data[conns[t * nn + n] * 2 + c] for n in range(nn)), Dual(0)) for c in range(2)], (2,))
+                gq = Arr([sum((U.data[conns[t * nn + n] * 2 + i] * grads.data[((t * nq + q) * nn + n) * 2 + j] for n in range(nn)), Dual(0))
+                          for i in range(2) for j in range(2)], (2, 2))
+                sq = Arr([state.data[t * nq + q]], (1,))
+                want = want + opaque_value("f", [uq, gq, sq, xq, dt]) * vols.data[t * nq + q]
+        return (first_mismatch(got, want),)
+    r = evaluate(ctx, rule, iob, cons, go)
+    if r is not None:
+        ctx.decide(rule, r[0] is None, iob, None, construct=cons,
+                   detail="sum over the block's elements and points of f(u_q, grad u_q, state, X_q, dt) * vols[element, q]",
+                   bad_detail=f"integrate_over_block on block [2, 0] of a 3-element mesh: {describe(r[0])}: the kernel values of the block's elements are not "
+                              f"contracted with the volumes of the same elements / points")
+
+
+# ----------------------------------------------------------------------------- e: axis typing
 
 def e_axis_typing(ctx):
     rule = "e/T9-axis-typing"
     mg = ctx.need(f"{FS}:map_element_shape_grads")
-    # J = column_stack((dx/dxi0, dx/dxi1)) : [x, xi] ; shapeGradients per point dN : [node, xi]
-    cfg_m = cfg_of(mg)
-    r_m = cfg_m.returns()
-    e_m = return_normal_form(mg)
-    lam = [n for n in ast.walk(e_m) if isinstance(n, ast.Lambda)] if e_m is not None else []
-    ok = None
-    shown = "?"
-    jcalls = [c for c in ast.walk(e_m) if isinstance(c, ast.Call) and (dotted(c.func) or "").split(".")[-1] == "column_stack"] if e_m is not None else []
-    if len(lam) == 1 and jcalls:
-        import copy
-        jtxt = canon(jcalls[0])
 
-        class _J(ast.NodeTransformer):
-            def visit_Call(self, c_):
-                if canon(c_) == jtxt:
-                    return ast.Name(id="J__", ctx=ast.Load())
-                return self.generic_visit(c_)
-        body = _J().visit(copy.deepcopy(lam[0].body))
-        dn = lam[0].args.args[0].arg
-        shown = src(body)
-        ty = _type_axes(body, {"J__": ("x", "xi"), dn: ("node", "xi")})
-        ok = True if ty == ("node", "x") else (False if ty is not None else None)
-        shown += f" : {ty}"
-    ctx.decide(rule, ok, mg, None, construct="physical-gradients=[node,x]", detail=shown,
-               bad_detail=f"`{shown}`: with J : [x, xi] and reference gradients : [node, xi] the mapped gradients must have axes [node, x] "
-                          f"(both axes have length 2, so NumPy cannot catch the mix-up)")
-    ok = len(jcalls) >= 1 and len(lam) == 1 and any(canon(c_) == canon(jcalls[0]) for c_ in ast.walk(lam[0].body) if isinstance(c_, ast.Call))
-    ctx.decide(rule, ok, mg, None, construct="J-columns-are-parametric-directions", detail="J = column_stack((dx/dxi0, dx/dxi1))",
-               bad_detail="J is not assembled with the parametric directions as columns")
+    def go():
+        return (next((m for m in _grad_check(ctx, False) if m is not None), None),)
+    r = evaluate(ctx, rule, mg, "physical-gradients=[node,x]", go)
+    if r is not None:
+        ctx.decide(rule, r[0] is None, mg, None, construct="physical-gradients=[node,x]",
+                   detail="mapped gradients g : [point, node, x] satisfy g . dx/dxi = dN/dxi (J : [x, xi], reference gradients : [node, xi])",
+                   bad_detail=f"map_element_shape_grads: {r[0]}; with J : [x, xi] and reference gradients : [node, xi] the mapped gradients must be "
+                              f"solve(J^T, dN^T)^T : [node, x] (both axes have length 2, so NumPy cannot catch a mix-up)")
     sg = ctx.need(f"{FS}:compute_quadrature_point_field_gradient")
-    r = sg.returns()
-    cfg = cfg_of(sg)
-    e = expand(cfg, cfg.returns()[0], r[0]) if r else None
-    ok = e is not None and sem_same(e, f"np.tensordot({sg.params()[0]}, {sg.params()[1]}, axes=[0, 0])", sg)
-    ctx.decide(rule, ok, sg, r[0] if r else None, construct="field-gradient-contracts-the-node-axis", detail="tensordot(u[node,:], dN[node,x], axes=[0,0])",
-               bad_detail=f"field gradient is `{src(e) if e is not None else '?'}`; it must contract nodal values with shape gradients over the node axis")
+
+    def go2():
+        I = fresh_interp(ctx.repo)
+        nn = 3
+        u = sym_arr("u", (nn, 2))
+        g = sym_arr("g", (nn, 2))
+        got = I.call(fn_value(I, f"{FS}:compute_quadrature_point_field_gradient"), [u, g], {})
+        want = Arr([sum((u.data[n * 2 + i] * g.data[n * 2 + j] for n in range(nn)), Dual(0)) for i in range(2) for j in range(2)], (2, 2))
+        return (first_mismatch(got, want),)
+    r = evaluate(ctx, rule, sg, "field-gradient-contracts-the-node-axis", go2)
+    if r is not None:
+        ctx.decide(rule, r[0] is None, sg, None, construct="field-gradient-contracts-the-node-axis",
+                   detail="grad u [i, j] = sum_n u[n, i] dN[n, j]",
+                   bad_detail=f"field gradient: {describe(r[0])}; it must contract nodal values with shape gradients over the node axis: [i, j] = sum_n u[n,i] dN[n,j]")
 
 
-def _type_axes(e, env):
-    """Axis names of small linear-algebra expressions: names, .T, solve(A,B)."""
-    if isinstance(e, ast.Name):
-        return env.get(e.id)
-    if isinstance(e, ast.Attribute) and e.attr == "T":
-        t = _type_axes(e.value, env)
-        return (t[1], t[0]) if t else None
-    if isinstance(e, ast.Call) and (dotted(e.func) or "").split(".")[-1] == "solve" and len(e.args) == 2:
-        a, b = _type_axes(e.args[0], env), _type_axes(e.args[1], env)
-        if not a or not b:
-            return None
-        if a[0] != b[0]:
-            return ("MISMATCH", f"{a}x{b}")
-        return (a[1], b[1])
-    if isinstance(e, ast.BinOp) and isinstance(e.op, ast.MatMult):
-        a, b = _type_axes(e.left, env), _type_axes(e.right, env)
-        if not a or not b:
-            return None
-        if a[1] != b[0]:
-            return ("MISMATCH", f"{a}@{b}")
-        return (a[0], b[1])
-    if isinstance(e, ast.Call) and (dotted(e.func) or "").endswith("inv") and len(e.args) == 1:
-        t = _type_axes(e.args[0], env)
-        return (t[1], t[0]) if t else None
-    return None
+# ----------------------------------------------------------------------------- f: quadrature tables
 
-
-def _literal_array(node):
-    def val(x):
-        if isinstance(x, (ast.List, ast.Tuple)):
-            return [val(e) for e in x.elts]
-        c = const_value(x)
+def _fractions(a):
+    if isinstance(a, Unknown):
+        raise EvalError(f"table not evaluated: {a.why[:120]}")
+    if not isinstance(a, Arr):
+        raise EvalError(f"table is {a!r}")
+    out = []
+    for x in a.data:
+        c = const_of(x)
         if c is None:
-            raise ValueError(src(x))
-        return Fraction(repr(float(c)))
-    if isinstance(node, ast.Call) and (dotted(node.func) or "").endswith("array") and node.args:
-        return val(node.args[0])
-    raise ValueError("not a literal array")
+            raise EvalError("table entry is not a constant")
+        out.append(c)
+    return out
 
 
 def f_tables(ctx):
     rule = "f/T7-quadrature-tables"
     tri = ctx.need(f"{QR}:create_quadrature_rule_on_triangle")
-    # dispatch evaluated per requested degree: the branch that a given integer degree selects is found by folding the tests
-    # (comparisons of the parameter with literals, not/and/or); raising branches mean "not supported"
-    dpar = tri.params()[0]
-
-    def fold_test(t, d):
-        if isinstance(t, ast.Compare) and len(t.ops) == 1 and isinstance(t.left, ast.Name) and t.left.id == dpar:
-            c = const_value(t.comparators[0])
-            if c is None:
-                raise ValueError("non-literal bound")
-            return {ast.LtE: d <= c, ast.Lt: d < c, ast.Eq: d == c, ast.GtE: d >= c, ast.Gt: d > c, ast.NotEq: d != c}[type(t.ops[0])]
-        if isinstance(t, ast.UnaryOp) and isinstance(t.op, ast.Not):
-            return not fold_test(t.operand, d)
-        if isinstance(t, ast.BoolOp):
-            vals_ = [fold_test(v, d) for v in t.values]
-            return all(vals_) if isinstance(t.op, ast.And) else any(vals_)
-        raise ValueError("test is not a bound on the degree")
-
-    def select(body, d, env):
-        """statements executed for degree d (assignments recorded in env); returns 'raise' / 'return' / None"""
-        for st_ in body:
-            if isinstance(st_, ast.If):
-                r_ = select(st_.body if fold_test(st_.test, d) else st_.orelse, d, env)
-                if r_:
-                    return r_
-            elif isinstance(st_, ast.Raise):
-                return "raise"
-            elif isinstance(st_, ast.Return):
-                env["@return"] = st_.value
-                return "return"
-            elif isinstance(st_, ast.Assign) and isinstance(st_.targets[0], ast.Name):
-                env[st_.targets[0].id] = st_.value
-        return None
-    chain = []
-    seen_tables = {}
-    for d in range(0, 16):
-        env_ = {}
+    tables = []          # [X, W, lowest degree, highest degree]
+    MAXD = 15
+    for d in range(0, MAXD + 1):
         try:
-            r_ = select(tri.node.body, d, env_)
-        except ValueError as ex:
-            ctx.undecided(rule, tri, None, construct=f"degree={d}:dispatch", detail=str(ex))
+            I = fresh_interp(ctx.repo, lobatto=False)
+            I.tolerant = False
+            r = I.call(fn_value(I, f"{QR}:create_quadrature_rule_on_triangle"), [d], {})
+            touch_visited(ctx, I, (QR,))
+            xi, w = I.iterate(r) if isinstance(r, Record) else r
+            X, W = _fractions(xi), _fractions(w)
+            if not isinstance(xi, Arr) or xi.ndim != 2 or xi.shape[1] != 2 or w.ndim != 1:
+                raise EvalError(f"points have shape {xi.shape}, weights {w.shape}")
+            X = [(X[2 * i], X[2 * i + 1]) for i in range(len(X) // 2)]
+        except Raised as ex:
+            if 1 <= d <= 10:
+                ctx.refuted(rule, tri, None, construct=f"degree={d}:supported",
+                            detail=f"create_quadrature_rule_on_triangle({d}) raises `{ex}`; degrees 1..10 are part of the advertised range")
             continue
-        if r_ != "return":
+        except ERRS as ex:
+            ctx.undecided(rule, tri, None, construct=f"degree={d}:table", detail=f"cannot evaluate the rule for degree {d}: {type(ex).__name__}: {str(ex)[:200]}")
             continue
-        rv = env_["@return"]
-        args_ = list(rv.args) + [k.value for k in rv.keywords] if isinstance(rv, ast.Call) else []
-        tabs = [env_.get(a.id) if isinstance(a, ast.Name) else a for a in args_[:2]]
-        key_ = tuple(id(t) for t in tabs)
-        seen_tables.setdefault(key_, [tabs, d])
-        seen_tables[key_][1] = d           # highest degree that selects this table
-    for key_, (tabs, hi) in seen_tables.items():
-        chain.append((hi, tabs))
-    n_br = 0
+        for tb in tables:
+            if tb[0] == X and tb[1] == W:
+                tb[3] = d
+                break
+        else:
+            tables.append([X, W, d, d])
     tol = Fraction(2, 10**14)
-    for (hi, tabs) in chain:
-        xi, w = (tabs + [None, None])[:2]
-        try:
-            X, W = _literal_array(xi), _literal_array(w)
-        except (ValueError, AttributeError, TypeError) as ex:
-            ctx.undecided(rule, tri, None, construct=f"degree<={hi}:table", detail=f"table is not a literal array: {ex}")
-            continue
-        n_br += 1
-        okc = len(X) == len(W) and all(len(p) == 2 for p in X)
+    for (X, W, lo, hi) in tables:
+        okc = len(X) == len(W)
         pos = all(x > 0 for x in W)
         inside = all(p[0] >= 0 and p[1] >= 0 and p[0] + p[1] <= 1 for p in X)
-        ctx.decide(rule, okc and pos and inside, tri, w, construct=f"degree<={hi}:positive-weights-points-inside",
+        ctx.decide(rule, okc and pos and inside, tri, None, construct=f"degree<={hi}:positive-weights-points-inside",
                    detail=f"{len(W)} points, weights positive, points in the reference triangle",
-                   bad_detail=f"rule for degree <= {hi}: {len(X)} points / {len(W)} weights, positive weights: {pos}, points inside the triangle: {inside}")
+                   bad_detail=f"rule returned for degree {lo}..{hi}: {len(X)} points / {len(W)} weights, positive weights: {pos}, points inside the triangle: {inside}")
+        if not okc:
+            continue
         worst = None
         for a in range(hi + 1):
             for b in range(hi + 1 - a):
@@ -428,113 +762,281 @@ def f_tables(ctx):
                 if worst is None or err > worst[0]:
                     worst = (err, a, b, got, exact)
         ok = worst[0] <= tol
-        ctx.decide(rule, ok, tri, xi, construct=f"degree<={hi}:monomial-moments",
+        ctx.decide(rule, ok, tri, None, construct=f"degree<={hi}:monomial-moments",
                    detail=f"all moments x^a y^b, a+b <= {hi}, match a!b!/(a+b+2)! (max error {float(worst[0]):.2e})",
-                   bad_detail=f"rule selected for degree <= {hi} integrates x^{worst[1]} y^{worst[2]} to {float(worst[3]):.16g} instead of {float(worst[4]):.16g} "
+                   bad_detail=f"rule returned for degree <= {hi} integrates x^{worst[1]} y^{worst[2]} to {float(worst[3]):.16g} instead of {float(worst[4]):.16g} "
                               f"(error {float(worst[0]):.2e}): it is not exact to the degree it is selected for")
-    if n_br < 6:
-        raise Incomplete(f"{n_br} literal triangle tables checked (6 expected)")
-    # 1D rule: number of points
+    if len(tables) < 1:
+        raise Incomplete("no triangle rule could be evaluated")
+
+
+def _gauss_stubs(I):
+    """Gauss-Legendre providers as opaque tables: n shifted nodes s_i / weights ws_i on [0,1]; the [-1,1] providers return 2 s - 1, 2 ws."""
+    def shifted(n):
+        return (Arr([Dual(_A.atom(f"gauss{n}_s{i}")) for i in range(n)], (n,)), Arr([Dual(_A.atom(f"gauss{n}_w{i}")) for i in range(n)], (n,)))
+
+    def sh(it, args, kw):
+        n = it.as_int(args[0])
+        if n < 1:
+            raise Raised(f"roots_sh_legendre({n}): n must be positive")
+        return shifted(n)
+
+    def std(it, args, kw):
+        n = it.as_int(args[0])
+        if n < 1:
+            raise Raised(f"Gauss-Legendre with {n} points")
+        s, w = shifted(n)
+        return (s.map(lambda v: Dual(2) * v - Dual(1)), w.map(lambda v: Dual(2) * v))
+    for nm in ("roots_sh_legendre", "ps_roots"):
+        for pre in ("scipy.special.", "scipy.special.special.", "scipy."):
+            I.ext_special[pre + nm] = sh
+    for nm in ("roots_legendre", "p_roots"):
+        for pre in ("scipy.special.", "scipy.special.special.", "scipy."):
+            I.ext_special[pre + nm] = std
+    for pre in ("numpy.polynomial.legendre.", "numpy.polynomial.legendre.legendre."):
+        I.ext_special[pre + "leggauss"] = std
+    return shifted
+
+
+def _affine_image(xi, w, s, ws):
+    """(a, b, c) if xi = a*s + b and w = c*ws entrywise with rational constants, else None"""
+    try:
+        abc = set()
+        for x_, w_, s_, ws_ in zip(xi.data, w.data, s.data, ws.data):
+            (sa,) = s_.a.atoms()
+            (wa,) = ws_.a.atoms()
+            a = rat_const(_A.diff(x_.a, sa))
+            c = rat_const(_A.diff(w_.a, wa))
+            if a is None or c is None:
+                return None
+            b = rat_const(_A.norm(x_.a - _A.const(a) * s_.a))
+            r = rat_const(_A.norm(w_.a - _A.const(c) * ws_.a))
+            if b is None or r is None or r != 0:
+                return None
+            abc.add((a, b, c))
+        return abc.pop() if len(abc) == 1 else None
+    except (ValueError, TypeError, AttributeError):
+        return None
+
+
+def f_rule_1d(ctx):
+    rule = "f/T7-quadrature-tables"
     q1 = ctx.need(f"{QR}:create_quadrature_rule_1D")
-    nd = [s for s in ast.walk(q1.node) if isinstance(s, ast.Assign) and isinstance(s.value, ast.Call) and (dotted(s.value.func) or "").endswith("ceil")]
-    ok = None
-    bad_d = None
-    if len(nd) == 1:
-        arg = nd[0].value.args[0]
-        ok = True
-        for d in range(0, 26):
-            try:
-                v = _fold(arg, {"degree": Fraction(d)})
-            except ValueError:
-                ok = None
-                break
-            n = math.ceil(v)
-            if 2 * n - 1 < d or n < 1:
-                ok = False
-                bad_d = (d, n)
-                break
-        calls = [c for c in ast.walk(q1.node) if isinstance(c, ast.Call) and (dotted(c.func) or "").endswith("roots_sh_legendre")]
-        ok = ok and len(calls) == 1 and src(calls[0].args[0]) == src(nd[0].targets[0]) if ok else ok
-    ctx.decide(rule, ok, q1, nd[0] if nd else None, construct="1D:points=ceil((degree+1)/2)", detail="2n-1 >= degree for degree 0..25; shifted Gauss-Legendre nodes on [0,1]",
-               bad_detail=f"1D rule uses n = {src(nd[0].value) if nd else '?'} points: for degree {bad_d[0] if bad_d else '?'} that is n = {bad_d[1] if bad_d else '?'}, "
-                          f"exact only to degree {2 * bad_d[1] - 1 if bad_d else '?'}")
+    bad = None
+    und = None
+    for d in range(0, 26):
+        try:
+            I = fresh_interp(ctx.repo, lobatto=False)
+            I.tolerant = False
+            shifted = _gauss_stubs(I)
+            r = I.call(fn_value(I, f"{QR}:create_quadrature_rule_1D"), [d], {})
+            xi, w = I.iterate(r) if isinstance(r, Record) else r
+            if not isinstance(xi, Arr) or not isinstance(w, Arr) or xi.ndim != 1 or xi.shape != w.shape:
+                raise EvalError(f"rule is ({xi!r}, {w!r})")
+            n = xi.shape[0]
+            if n < 1 or 2 * n - 1 < d:
+                bad = bad or f"for degree {d} it takes n = {n} points, exact only to degree {2 * n - 1}"
+                continue
+            cx, cw = [const_of(v) for v in xi.data], [const_of(v) for v in w.data]
+            if all(c is not None for c in cx + cw):
+                # literal tables: decided by the moments  sum_i w_i x_i^k = 1/(k+1),  k = 0..degree
+                worst = max((abs(sum(wi * xi_ ** k for wi, xi_ in zip(cw, cx)) - Fraction(1, k + 1)), k) for k in range(d + 1))
+                if worst[0] > Fraction(2, 10**14):
+                    bad = bad or f"for degree {d} the {n}-point table integrates x^{worst[1]} over [0,1] with error {float(worst[0]):.2e}"
+                continue
+            s, ws = shifted(n)
+            if first_mismatch(xi, s) is None and first_mismatch(w, ws) is None:
+                continue
+            # an affine image of the n-point Gauss-Legendre rule on [0,1]?  x = a s + b, weights c ws: exact on [0,1] only for a=1, b=0, c=1
+            aff = _affine_image(xi, w, s, ws)
+            if aff is None:
+                und = und or f"degree {d}: points {show(xi)}, weights {show(w)} are not recognised as a Gauss-Legendre rule"
+            else:
+                bad = bad or (f"for degree {d} it returns the {n}-point Gauss-Legendre rule mapped by x -> {aff[0]}*x + {aff[1]} with weights scaled by {aff[2]}: "
+                              f"that is a rule on [{aff[1]}, {aff[0] + aff[1]}], not on the unit interval the edge shape functions use")
+        except Raised as ex:
+            bad = bad or f"for degree {d} it raises `{ex}`"
+        except ERRS as ex:
+            und = und or f"degree {d}: {type(ex).__name__}: {str(ex)[:200]}"
+    ctx.decide(rule, False if bad else (None if und else True), q1, None, construct="1D:points=ceil((degree+1)/2)",
+               detail="n Gauss-Legendre points on [0,1] with 2n-1 >= degree for degree 0..25",
+               bad_detail=f"create_quadrature_rule_1D: {bad or und}")
     ei = ctx.need(f"{QR}:eval_at_iso_points")
-    r = ei.returns()
-    cfg = cfg_of(ei)
-    e = expand(cfg, cfg.returns()[0], r[0]) if r else None
-    ok = e is not None and Unifier(ei).match(e, f"np.array([{ei.params()[1]}[0, :] + ({ei.params()[1]}[1, :] - {ei.params()[1]}[0, :]) * xi for xi in {ei.params()[0]}])")
-    ctx.decide(rule, ok, ei, r[0] if r else None, construct="eval_at_iso_points", detail="f0 + (f1 - f0) xi at every point",
-               bad_detail=f"eval_at_iso_points is `{src(e) if e is not None else '?'}`")
+
+    def go():
+        I = fresh_interp(ctx.repo, lobatto=False)
+        xi = sym_arr("s", (3,))
+        fld = sym_arr("f", (2, 2))
+        got = I.call(fn_value(I, f"{QR}:eval_at_iso_points"), [xi, fld], {})
+        want = Arr([fld.data[c] + (fld.data[2 + c] - fld.data[c]) * xi.data[q] for q in range(3) for c in range(2)], (3, 2))
+        return (first_mismatch(got, want),)
+    r = evaluate(ctx, rule, ei, "eval_at_iso_points", go)
+    if r is not None:
+        ctx.decide(rule, r[0] is None, ei, None, construct="eval_at_iso_points", detail="f0 + (f1 - f0) xi at every point",
+                   bad_detail=f"eval_at_iso_points: {describe(r[0])}")
 
 
-def _fold(e, env):
-    if isinstance(e, ast.Constant):
-        return Fraction(repr(float(e.value)))
-    if isinstance(e, ast.Name):
-        if e.id in env:
-            return env[e.id]
-        raise ValueError(e.id)
-    if isinstance(e, ast.BinOp):
-        a, b = _fold(e.left, env), _fold(e.right, env)
-        if isinstance(e.op, ast.Add):
-            return a + b
-        if isinstance(e.op, ast.Sub):
-            return a - b
-        if isinstance(e.op, ast.Mult):
-            return a * b
-        if isinstance(e.op, ast.Div):
-            return a / b
-    raise ValueError(src(e))
+# ----------------------------------------------------------------------------- g: edge integration
+
+class EdgeFixture:
+    def __init__(self, ctx, order=2, nq=2):
+        self.F = F = Fixture(ctx, order=order, bubble=False, nq=nq)
+        I = F.I
+        self.I = I
+        self.order = order
+        self.nn1 = order + 1
+        self.s = sym_arr("s", (nq,))
+        self.wq = sym_arr("wq", (nq,))
+        self.rule1d = quadrature_rule(I, self.s, self.wq)
+        self.U = sym_arr("U", (F.coords.shape[0], 2))
+        self.faces = ints_of(M.table(F.pe, "faceNodes"))
+        self.calls = []
+        pe1 = F.pe1
+
+        def shapes1d(it, args, kw):
+            vals = list(args) + list(kw.values())
+            pts = [v for v in vals if isinstance(v, Arr)]
+            if not any(v is pe1 for v in vals) or len(pts) != 1 or pts[0].ndim != 1:
+                raise EvalError("compute_shapes: not the 1D parent element of the mesh at a list of points")
+            self.calls.append(pts[0])
+            return shape_functions(it, self.basis(pts[0]), self.basis(pts[0], "dB"))
+        I.special[f"{IP}:compute_shapes"] = shapes1d
+        self.fs = I.call(fn_value(I, f"{FS}:FunctionSpace"), [], {"shapes": None, "vols": None, "shapeGrads": None, "mesh": F.mesh,
+                                                                  "quadratureRule": None, "isAxisymmetric": False})
+
+    def basis(self, pts, name="B"):
+        """values[n, q] of the 1D Lagrange basis function n at point q (layout of Interpolants.shape1d).  The interior functions are opaque
+        symbols of the point; the two end functions are eliminated by the reproduction identities  sum_n B_n = 1,  sum_n B_n L_n = s
+        (trusted), so that an interpolation of affinely placed nodes and the straight-line form a + s (b - a) have one normal form."""
+        from optilint.expr import simplify
+        p = self.nn1 - 1
+        L = M.table(self.F.pe1, "coordinates").data
+        cols = []
+        for s_ in pts.data:
+            key = repr(simplify(_A.norm(s_.a)))
+            if name != "B":
+                cols.append([Dual(_A.atom(f"{name}{n}[{key}]")) for n in range(self.nn1)])
+                continue
+            inner = {n: Dual(_A.atom(f"B{n}[{key}]")) for n in range(1, p)}
+            last = s_ - sum((inner[n] * L[n] for n in inner), Dual(0))
+            first = Dual(1) - last - sum(inner.values(), Dual(0))
+            cols.append([first] + [inner[n] for n in range(1, p)] + [last])
+        return Arr([cols[q][n] for n in range(self.nn1) for q in range(len(cols))], (self.nn1, pts.shape[0]))
+
+    def edge_nodes(self, t, side):
+        F = self.F
+        return [F.node(t, k) for k in self.faces[side * self.nn1:(side + 1) * self.nn1]]
+
+    def interp(self, field, pts, t, side):
+        B = self.basis(pts)
+        nodes = self.edge_nodes(t, side)
+        nq = pts.shape[0]
+        return Arr([sum((B.data[n * nq + q] * field.data[nodes[n] * 2 + c] for n in range(self.nn1)), Dual(0)) for q in range(nq) for c in range(2)], (nq, 2))
+
+    def roles(self, t, side):
+        F = self.F
+        a, b = F.V[t][side], F.V[t][(side + 1) % 3]
+        tx, ty = b[0] - a[0], b[1] - a[1]
+        jac = d_fun("sqrt", tx * tx + ty * ty)
+        normal = Arr([ty / jac, -tx / jac], (2,))
+        return self.interp(self.U, self.s, t, side), self.interp(F.coords, self.s, t, side), normal, jac
+
+    def integral(self, t, side, fname="f"):
+        uq, xq, normal, jac = self.roles(t, side)
+        tot = Dual(0)
+        for q in range(self.s.shape[0]):
+            tot = tot + opaque_value(fname, [rows_of(uq)[q], rows_of(xq)[q], normal]) * jac * self.wq.data[q]
+        return tot
 
 
 def g_edges(ctx):
     rule = "g/T5-edge-integration"
     ie = ctx.need(f"{FS}:integrate_function_on_edge")
-    cfg = cfg_of(ie)
-    fsn, fn, U, qr, edge = ie.params()
-    r = cfg.returns()
-    u = Unifier(ie)
-    want = [
-        ("uq", f"interpolate_nodal_field_on_edge({fsn}, {U}, {qr}.xigauss, {edge})"),
-        ("Xq", f"interpolate_nodal_field_on_edge({fsn}, {fsn}.mesh.coords, {qr}.xigauss, {edge})"),
-        ("edgeCoords", f"Mesh.get_edge_coords({fsn}.mesh, {edge})"),
-    ]
-    for nm, tmpl in want:
-        hit = u.assigns(tmpl, target=nm)
-        ctx.decide(rule, len(hit) == 1, ie, hit[0] if hit else None, construct=f"role:{nm}", detail=tmpl,
-                   bad_detail=f"no assignment `{nm} = {tmpl}` (up to names of locals) in integrate_function_on_edge: found " +
-                              "; ".join(src(s_)[:80] for s_ in ast.walk(ie.node) if isinstance(s_, ast.Assign) and tmpl.split("(")[0].split(".")[-1] in src(s_.value))[:200])
-    tup = [s_ for s_ in ast.walk(ie.node) if isinstance(s_, ast.Assign) and isinstance(s_.targets[0], ast.Tuple) and "compute_edge_vectors" in src(s_.value)]
-    ok = len(tup) == 1 and u.match(tup[0], ast.parse(f"_, normal, jac = Mesh.compute_edge_vectors({fsn}.mesh, edgeCoords)").body[0])
-    ctx.decide(rule, ok, ie, tup[0] if tup else None, construct="normal-and-jacobian-from-edge-vectors", detail="(_, normal, jac) = Mesh.compute_edge_vectors(mesh, edgeCoords)",
-               bad_detail=f"`{src(tup[0]) if tup else '?'}`: tangent/normal/jacobian are not unpacked as (_, normal, jac) from Mesh.compute_edge_vectors(mesh, edge coordinates)")
-    hit = u.assigns(f"jax.vmap({fn}, (0, 0, None))(uq, Xq, normal)", target="integrand")
-    ctx.decide(rule, len(hit) == 1, ie, hit[0] if hit else None, construct="role:integrand", detail="f(u_q, X_q, n) at every quadrature point",
-               bad_detail="the integrand is not jax.vmap(func, (0, 0, None))(interpolated field, interpolated coordinates, edge normal)")
-    ok = len(r) == 1 and u.match(r[0].ast.value, f"np.dot(integrand, jac*{qr}.wgauss)")
-    ctx.decide(rule, ok, ie, r[0].ast if r else None, construct="weights=jacobian*gauss-weights", detail="dot(integrand, jac*w)",
-               bad_detail=f"edge integral is `{src(r[0].ast.value) if r else '?'}`")
+    cases = [(1, 0), (0, 2), (1, 1)]
+    for (t, side) in cases:
+        cons = f"edge-integral[element={t},side={side}]"
+
+        def go(t=t, side=side):
+            E = EdgeFixture(ctx)
+            log = []
+            got = E.I.call(fn_value(E.I, f"{FS}:integrate_function_on_edge"), [E.fs, opaque_fn("f", log), E.U, E.rule1d, int_arr([t, side])], {})
+            touch_visited(ctx, E.I, (FS, ME))
+            mm = first_mismatch(got, E.integral(t, side))
+            why = ""
+            if mm is not None:
+                # which role is off?  compare the arguments the kernel received at each point with the specification
+                uq, xq, normal, jac = E.roles(t, side)
+                if len(log) != E.s.shape[0]:
+                    why = f"the integrand is evaluated {len(log)} times for {E.s.shape[0]} quadrature points"
+                for q, call in enumerate(log[:E.s.shape[0]]):
+                    if why or len(call) != 3:
+                        break
+                    for nm, g_, w_ in (("interpolated field u", call[0], rows_of(uq)[q]), ("interpolated coordinates X", call[1], rows_of(xq)[q]), ("normal", call[2], normal)):
+                        try:
+                            m2 = first_mismatch(g_, w_)
+                        except ERRS:
+                            m2 = None
+                        if m2 is not None:
+                            why = f"at quadrature point {q} the kernel receives as {nm}: {describe(m2, 'component')}"
+                            break
+                if not why:
+                    why = "the kernel arguments agree with the specification, so the weights differ from (edge length) * w_q: " + describe(mm, "value")
+            return (mm, why)
+        r = evaluate(ctx, rule, ie, cons, go)
+        if r is None:
+            continue
+        mm, why = r
+        ctx.decide(rule, mm is None, ie, None, construct=cons,
+                   detail="sum_q f(u(s_q), X(s_q), n) |t| w_q: field and coordinates interpolated with the same 1D shape functions at the rule's points over "
+                          "conns[element, faceNodes[side]]; n = (t_y, -t_x)/|t|, t = edge vector",
+                   bad_detail=f"integrate_function_on_edge on side {side} of element {t}: {why}; expected "
+                              f"sum_q f(u_q, X_q, outward normal) * (edge length) * w_q with u_q, X_q interpolated at the rule's points on this edge")
     io = ctx.need(f"{FS}:interpolate_nodal_field_on_edge")
-    r2 = io.returns()
-    u2 = Unifier(io)
-    s1 = u2.assigns(f"Interpolants.compute_shapes({io.params()[0]}.mesh.parentElement1d, {io.params()[2]})", target="edgeShapes")
-    s2 = u2.assigns(f"get_nodal_values_on_edge({io.params()[0]}, {io.params()[1]}, {io.params()[3]})", target="edgeU")
-    ok = len(s1) == 1 and len(s2) == 1 and len(r2) == 1 and u2.match(r2[0], "edgeShapes.values.T@edgeU")
-    ctx.decide(rule, ok, io, r2[0] if r2 else None, construct="edge-interpolation-with-1d-parent-element", detail="shapes of parentElement1d at the given points, contracted with the edge's nodal values",
-               bad_detail="interpolate_nodal_field_on_edge does not use the 1D parent element's shape functions at the given points")
+
+    def go2():
+        E = EdgeFixture(ctx)
+        pts = sym_arr("p", (3,))
+        out = []
+        for (t, side) in cases:
+            got = E.I.call(fn_value(E.I, f"{FS}:interpolate_nodal_field_on_edge"), [E.fs, E.U, pts, int_arr([t, side])], {})
+            out.append(first_mismatch(got, E.interp(E.U, pts, t, side)))
+        return out
+    r = evaluate(ctx, rule, io, "edge-interpolation-with-1d-parent-element", go2)
+    if r is not None:
+        bad = next((m for m in r if m is not None), None)
+        ctx.decide(rule, bad is None, io, None, construct="edge-interpolation-with-1d-parent-element",
+                   detail="shapes of parentElement1d at the given points, contracted with the nodal values on conns[element, faceNodes[side]]",
+                   bad_detail=f"interpolate_nodal_field_on_edge: {describe(bad)}: not the 1D parent element's shape functions at the given points times the edge's nodal values")
     gn = ctx.need(f"{FS}:get_nodal_values_on_edge")
-    g_ = gn.params()
-    gcfg = cfg_of(gn)
-    gr = gcfg.returns()
-    ok = len(gr) == 1 and sem_same(expand(gcfg, gr[0], gr[0].ast.value),
-                                   f"{g_[1]}[{g_[0]}.mesh.conns[{g_[2]}[0], {g_[0]}.mesh.parentElement.faceNodes[{g_[2]}[1], :]]]", gn)
-    ctx.decide(rule, ok, gn, None, construct="edge-nodes=conns[element, faceNodes[side]]", detail="edge = (element, local side)",
-               bad_detail="get_nodal_values_on_edge does not gather conns[edge[0], faceNodes[edge[1]]]")
+
+    def go3():
+        E = EdgeFixture(ctx)
+        out = []
+        for (t, side) in cases:
+            got = E.I.call(fn_value(E.I, f"{FS}:get_nodal_values_on_edge"), [E.fs, E.U, int_arr([t, side])], {})
+            nodes = E.edge_nodes(t, side)
+            want = Arr([E.U.data[nd * 2 + c] for nd in nodes for c in range(2)], (len(nodes), 2))
+            out.append(first_mismatch(got, want))
+        return out
+    r = evaluate(ctx, rule, gn, "edge-nodes=conns[element, faceNodes[side]]", go3)
+    if r is not None:
+        bad = next((m for m in r if m is not None), None)
+        ctx.decide(rule, bad is None, gn, None, construct="edge-nodes=conns[element, faceNodes[side]]", detail="edge = (element, local side)",
+                   bad_detail=f"get_nodal_values_on_edge: {describe(bad)}: it does not gather field[conns[edge[0], faceNodes[edge[1]]]]")
     ies = ctx.need(f"{FS}:integrate_function_on_edges")
-    r3 = ies.returns()
-    ok = len(r3) == 1 and "np.sum(" in src(r3[0]) and "jax.vmap(integrate_function_on_edge, (None, None, None, None, 0))" in src(ies.node)
-    ctx.decide(rule, ok, ies, r3[0] if r3 else None, construct="sum-over-edges", detail="sum of per-edge integrals, mapped over the edge list",
-               bad_detail="integrate_function_on_edges is not the sum of integrate_function_on_edge over the edge axis")
+
+    def go4():
+        E = EdgeFixture(ctx)
+        edges = Arr([Dual(v) for c in cases for v in c], (len(cases), 2))
+        got = E.I.call(fn_value(E.I, f"{FS}:integrate_function_on_edges"), [E.fs, opaque_fn("f"), E.U, E.rule1d, edges], {})
+        want = Dual(0)
+        for (t, side) in cases:
+            want = want + E.integral(t, side)
+        return (first_mismatch(got, want),)
+    r = evaluate(ctx, rule, ies, "sum-over-edges", go4)
+    if r is not None:
+        ctx.decide(rule, r[0] is None, ies, None, construct="sum-over-edges", detail="sum of the per-edge integrals over the edge list",
+                   bad_detail=f"integrate_function_on_edges: {describe(r[0])}: not the sum of the edge integrals over the listed edges")
 
 
 def variants(repo):
@@ -565,6 +1067,30 @@ def variants(repo):
         Variant("edge vectors order", F, sub("    _, normal, jac = Mesh.compute_edge_vectors", "    normal, _, jac = Mesh.compute_edge_vectors"), "g/T5-edge-integration"),
         Variant("interior node convention", Me, sub("        A = np.column_stack((N0,N1,N2))", "        A = np.column_stack((N2,N0,N1))"), "c/T6-order-elevation"),
         Variant("flip one normal", "optimism/Surface.py", sub_in_func("compute_edge_vectors", "    normal = np.array([tangent[1], -tangent[0]])", "    normal = np.array([-tangent[1], tangent[0]])"), "d/T6-normal-siblings"),
+        # --- further breaking edits
+        Variant("block integration with the leading volumes", F, sub("functionSpace.vols[block].ravel()", "functionSpace.vols[:len(block)].ravel()"), "c/T6-affine-map"),
+        Variant("bubble element evaluated with the plain basis", I, sub("        return shape2dBubble(parentElement, evaluationPoints)", "        return shape2d(parentElement.degree, parentElement.coordinates, evaluationPoints)"), "a/T14-dispatch"),
+        Variant("edge coordinates interpolated at mirrored points", F, sub("    Xq = interpolate_nodal_field_on_edge(functionSpace, functionSpace.mesh.coords, quadRule.xigauss, edge)", "    Xq = interpolate_nodal_field_on_edge(functionSpace, functionSpace.mesh.coords, 1.0 - quadRule.xigauss, edge)"), "g/T5-edge-integration"),
+        Variant("edge nodes of the wrong side", F, sub("    edgeNodes = functionSpace.mesh.parentElement.faceNodes[edge[1], :]", "    edgeNodes = functionSpace.mesh.parentElement.faceNodes[edge[0], :]"), "g/T5-edge-integration"),
+        Variant("field gradient transposed", F, sub("    dg = np.tensordot(u, shapeGrad, axes=[0,0])", "    dg = np.tensordot(shapeGrad, u, axes=[0,0])"), "e/T9-axis-typing"),
+        Variant("hoop strain from column 1", "optimism/Mechanics.py", sub("    dispGrad = dispGrad.at[2,2].set(disp[0]/coord[0])", "    dispGrad = dispGrad.at[2,2].set(disp[1]/coord[1])"), "b/T7-axisymmetric-weight"),
+        Variant("1D rule on [-1, 1]", Q, sub("    xi, w = scipy.special.roots_sh_legendre(n)", "    xi, w = scipy.special.roots_legendre(n)"), "f/T7-quadrature-tables"),
+        Variant("right-neighbour store unguarded", Me, sub("        if elemRight >= 0:", "        if True:"), "c/T6-order-elevation"),
+        Variant("volumes of the first three nodes", F, sub_in_func("compute_element_volumes", "    v = Xn[parentElement.vertexNodes]", "    v = Xn[:3]"), "c/T6-affine-map"),
+        Variant("gradients of the first three nodes", F, sub_in_func("map_element_shape_grads", "    v = Xn[parentElement.vertexNodes]", "    v = Xn[:3]"), "e/T9-axis-typing"),
+        # --- further preserving edits (deeper restructurings)
+        Variant("shapes by broadcasting", F, sub("    shapes = jax.vmap(lambda elConns, elShape: elShape, (0, None))(mesh.conns, shapeOnRef.values)", "    shapes = np.broadcast_to(shapeOnRef.values, (mesh.conns.shape[0],) + shapeOnRef.values.shape)"), None),
+        Variant("radius by einsum", F, sub("    Rs = shapes@Xn[:,0]", "    Rs = np.einsum('qn,n->q', shapes, Xn[:,0])"), None),
+        Variant("volume jacobian as a determinant", F, sub("    jac = np.cross(v[1] - v[0], v[2] - v[0])", "    jac = np.linalg.det(np.stack((v[0] - v[2], v[1] - v[2])))"), None),
+        Variant("gradients by the inverse Jacobian", F, sub("    return jax.vmap(lambda dN: solve(J.T, dN.T).T)(shapeGradients)", "    return np.einsum('qna,ai->qni', shapeGradients, np.linalg.inv(J))"), None),
+        Variant("1D point count by integer division", Q, sub("    n = math.ceil((degree + 1)/2)", "    n = degree//2 + 1"), None),
+        Variant("mode dispatch by table", F, sub("    if mode2D == 'cartesian':\n        el_vols = compute_element_volumes\n        isAxisymmetric = False\n    elif mode2D == 'axisymmetric':\n        el_vols = compute_element_volumes_axisymmetric\n        isAxisymmetric = True\n",
+                                                 "    el_vols, isAxisymmetric = {'axisymmetric': (compute_element_volumes_axisymmetric, True), 'cartesian': (compute_element_volumes, False)}[mode2D]\n"), None),
+        Variant("edge weights factored", F, sub("    return np.dot(integrand, jac*quadRule.wgauss)", "    return jac*np.sum(integrand*quadRule.wgauss)"), None),
+        Variant("straight-edge coordinates", F, sub("    Xq = interpolate_nodal_field_on_edge(functionSpace, functionSpace.mesh.coords, quadRule.xigauss, edge)\n    edgeCoords = Mesh.get_edge_coords(functionSpace.mesh, edge)",
+                                                   "    edgeCoords = Mesh.get_edge_coords(functionSpace.mesh, edge)\n    Xq = edgeCoords[0] + np.outer(quadRule.xigauss, edgeCoords[-1] - edgeCoords[0])"), None),
+        Variant("dispatch by dictionary", I, sub("    if parentElement.elementType == LINE_ELEMENT:\n        return shape1d(parentElement.degree, parentElement.coordinates, evaluationPoints)\n    elif parentElement.elementType == TRIANGLE_ELEMENT:\n        return shape2d(parentElement.degree, parentElement.coordinates, evaluationPoints)\n    elif",
+                                                 "    table = {LINE_ELEMENT: shape1d, TRIANGLE_ELEMENT: shape2d}\n    if parentElement.elementType in table:\n        return table[parentElement.elementType](parentElement.degree, parentElement.coordinates, evaluationPoints)\n    if"), None),
         Variant("reformat FunctionSpace", F, reformat(), None),
         Variant("reformat QuadratureRule", Q, reformat(), None),
     ]
